@@ -230,7 +230,8 @@ fn add_stdio(rep: &mut harness::report::Report, prop: &str, tier: &str, fault_de
     let mut hist = 0;
     let mut faults = 0;
     for ft in [fatfs::FatType::Fat12, fatfs::FatType::Fat32] {
-        let cfg = harness::vol::tiny_with(ft, 8, 16);
+        // (24 free clusters: the byte-vector model has no notion of a full volume; the deepest history writes 9 clusters)
+        let cfg = harness::vol::tiny_with(ft, 24, 16);
         // (FAT32: one level less for the fault enumeration - every allocation there issues far more device calls)
         let fd = if ft == fatfs::FatType::Fat32 { fault_depth.saturating_sub(1) } else { fault_depth };
         let s = stdio::explore(&cfg, if th { 4 } else { 3 }, fd, &|sig| keep.iter().any(|k| sig.starts_with(k)));
